@@ -38,6 +38,12 @@ def U(q: str, src: str, pkg: bool = False) -> Unit:
     return Unit(q, pkg, src, q.rpartition(".")[0] or None)
 
 
+def HUNT_FIELD_TYPE_UNITS(pk: str) -> List[Unit]:
+    return [U(pk, "'''The package.'''\n", True),
+            U(pk + ".a", "'''\nModule a.\n\n@var x: The x.\n@type x: what L{helper} returns\n'''\ndef helper():\n    '''Make an x.'''\nx = helper()\n"),
+            U(pk + ".b", "'''Module b.'''\nfrom .a import x\n__all__ = ['x']\n")]
+
+
 def scenario_projects() -> List[Dict[str, Any]]:
     """the situations the quantifiers of C11/C12 name explicitly, as small hand-written projects"""
     S: List[Dict[str, Any]] = []
@@ -114,6 +120,13 @@ def scenario_projects() -> List[Dict[str, Any]]:
     ], [])
     # ... and the subclass's own sibling of that name is hidden: the mis-shortened '#other' is then the address of a hidden object
     S.append({"name": "inherited-docstring-late-fields-hidden-sibling", "units": S[-1]["units"], "privacy": ["HIDDEN:inl.Sub2.other"]})
+    # class-private names (__name): mangled with the class name, they override, are overridden by and mask nothing (d869973)
+    add("class-private-names", [
+        U("cp", "class Base:\n    '''base'''\n    def __setup(self):\n        '''s'''\n    def run(self):\n        '''r'''\n    __slot = 1\n    '''sl'''\n"
+                "class Sub(Base):\n    '''sub'''\n    def __setup(self):\n        '''own'''\n    def run(self):\n        '''r2'''\n"
+                "class Sub2(Sub):\n    '''sub2'''\n    __slot = 2\n    def __dunder__(self):\n        '''d'''\n"
+                "class Sub3(Sub2):\n    '''sub3'''\n    def __dunder__(self):\n        '''d3'''\n"),
+    ], [])
     # hidden roots: the only root / one of two
     # class index: a base that could not be resolved although a class of that name exists (import cycle + re-export)
     # shares its dict key with that class, which is registered later and overwrites the entry
@@ -136,6 +149,35 @@ def scenario_projects() -> List[Dict[str, Any]]:
                 "class K:\n    \"\"\"Read notes_ first.\n\n    .. _notes:\n\n    The notes.\n    \"\"\"\n"
                 "    def f(self):\n        \"\"\"Uses `the target`_ here.\n\n        .. _the target:\n\n        Target paragraph.\n        \"\"\"\n"
                 "def g():\n    \"\"\"Plain summary.\n\n    Body refers to more_.\n\n    .. _more:\n\n    More.\n    \"\"\"\n"),
+    ], [])
+    # hunter round (C11/1..4) -----------------------------------------------------------------------------------------
+    # the type of a re-exported variable given by an @type field of the ORIGINAL module's docstring: extract_fields hands
+    # the very ParsedDocstring of the field body to the attribute; the module's FieldHandler.handle_type formats it too
+    # and ParsedDocstring.to_stan caches the first rendering whatever page it was made for (oracle-only: which page
+    # comes first is not part of the Output model)
+    add("reexported-variable-field-type", HUNT_FIELD_TYPE_UNITS("pkgvt"), [], oracle_only=True)
+    # a sectioned docstring that cannot be rendered (html2stan refuses &nbsp;) falls back to plain text, without
+    # headings; the sidebar table of contents only needs to_node()
+    add("sectioned-docstring-plain-text-fallback", [
+        U("tool", "\"\"\"\nCommand line tool.\n\nUsage\n=====\n\n-v                        be verbose\n"
+                  "--output-directory=DIR    where the files go\n\nDetails\n=======\n\nSome more text.\n\"\"\"\n"
+                  "__docformat__ = 'restructuredtext'\nclass K:\n    \"\"\"\n    A class.\n\n    Usage\n    =====\n\n"
+                  "    --a-very-long-option=VALUE    what it does\n    \"\"\"\n"),
+        U("tool2", "'''\nEpytext with a no-break space.\n\nUsage\n=====\n\nuse\u00a0it\n\nDetails\n=======\n\nmore\n'''\n"),
+    ], [])
+    # a reST docstring that is ONE top-level section: docutils promotes its title to the document title, whose ids are
+    # never written
+    add("rst-promoted-title", [
+        U("frob", "\"\"\"\n.. _top:\n\nFrobnicator\n===========\n\nFrobnicates things.\n\nInstallation\n------------\n\nNothing to do.\n\n"
+                  "Usage\n-----\n\nSee Installation_ first, then go back to the introduction of Frobnicator_ (top_).\n\"\"\"\n"
+                  "__docformat__ = 'restructuredtext'\n"),
+    ], [])
+    # a label before a code example: visit_doctest_block writes the colorized example without the node's ids
+    add("rst-label-before-code-example", [
+        U("net", "__docformat__ = 'restructuredtext'\ndef connect(host):\n    \"\"\"\n    Open a connection.\n\n"
+                 "    See the example_ and the `longer example`_ below, and the remark_.\n\n    .. _example:\n\n    >>> connect('localhost')\n    <Connection>\n\n"
+                 "    .. _longer example:\n\n    .. code-block:: python\n\n       with connect('localhost') as c:\n           c.send(b'x')\n\n"
+                 "    .. _remark:\n\n    A labelled paragraph.\n    \"\"\"\n"),
     ], [])
     # a re-exported function keeps the linker (and its page) of the module it was defined in
     add("reexported-function-context", [
@@ -318,7 +360,7 @@ def random_project(rng) -> List[Unit]:
     cands += ["f", "g", "x", "K.f", "Base", "_Q", "run", "nosuch.thing"]
     # a project written in reStructuredText (the docformat of a package is inherited by its modules: all or nothing);
     # no L{...} is planted there
-    rst_project = rng.random() < 0.08
+    rst_project = rng.random() < 0.10
     out = []
     for u in units:
         # names of the methods / functions of this unit: a late field often names a sibling by its bare name
@@ -354,9 +396,19 @@ def random_project(rng) -> List[Unit]:
             # summaries that hold internal references (`name_` -> `.. _name:`): the summary is copied to other pages
             # (tables, moduleIndex, classIndex, all-documents), the target is not
             q3 = '"' * 3
-            if rng.random() < 0.7:
+            variant = rng.choice(["summary-ref", "summary-ref", "promoted-title", "label-before-example", "unrenderable", "plain"])
+            tail = {"summary-ref": " see details_ here.\n\nMore.\n\n.. _details:\n\nthe details\n",
+                    # one top-level section (+ label): docutils promotes the title, its ids are never written
+                    "promoted-title": "\n\n.. _top:\n\nGuide\n=====\n\nText.\n\nInstall\n-------\n\nSee Guide_ and top_ and Install_.\n",
+                    # a label before a doctest block / code-block
+                    "label-before-example": "\n\nSee the example_ and `the other`_.\n\n.. _example:\n\n>>> 1 + 1\n2\n\n.. _the other:\n\n.. code-block:: python\n\n   x = 1\n",
+                    # sections + an option list with a long option (&nbsp; in docutils' HTML: html2stan fails, plain-text fallback)
+                    "unrenderable": "\n\nUsage\n=====\n\n--output-directory=DIR    where the files go\n\nDetails\n=======\n\nmore\n",
+                    "plain": ""}[variant]
+            if tail:
                 src = re.sub(r'^("""module [^\n]*?)"""',
-                             lambda m: m.group(1) + " see details_ here.\n\nMore.\n\n.. _details:\n\nthe details\n" + q3,
+                             lambda m: (m.group(1) + tail + q3) if variant == "summary-ref" else (q3 + tail.lstrip("\n") + "\n" + m.group(1)[3:] + ".\n" + q3)
+                             if variant == "promoted-title" else (q3 + "\n" + m.group(1)[3:] + "." + tail + q3),
                              src, count=1, flags=re.M)
             src = re.sub(r'^(    """doc of [^\n]*)\n    """',
                          lambda m: (m.group(1) + " with notes_ first.\n\n    .. _notes:\n\n    the notes\n    " + q3)
@@ -364,8 +416,10 @@ def random_project(rng) -> List[Unit]:
             src += "\n__docformat__ = 'restructuredtext'\n"
             r_sect = 1.0
         if r_sect < 0.3:
-            sect = "\n\nUsage\n=====\n\nuse it\n\nDetails\n-------\n\nmore\n"
-            src = re.sub(r'^("""module [^\n]*?)"""', lambda m: m.group(1) + sect + '"""', src, count=1, flags=re.M)
+            # (one time in five the text has a no-break space: html2stan refuses the entity, the docstring falls back to
+            # plain text without headings; not when the docstring holds an L{...}: the model expects that link on the page)
+            sect = "\n\nUsage\n=====\n\nuse%sit\n\nDetails\n-------\n\nmore\n" % ("\u00a0" if rng.random() < 0.2 else " ")
+            src = re.sub(r'^("""module [^\n]*?)"""', lambda m: m.group(1) + (sect.replace("\u00a0", " ") if "L{" in m.group(1) else sect) + '"""', src, count=1, flags=re.M)
             src = re.sub(r'^(    """doc of [^\n]*)\n    """', lambda m: m.group(1) + "\n\n    Notes\n    =====\n\n    n\n    \"\"\"", src, flags=re.M)
         # a default value that names a variable of the module (the link is made by the function's own linker)
         tops = re.findall(r"^([A-Za-z_][A-Za-z_0-9]*) = 1$", src, flags=re.M)
@@ -374,7 +428,7 @@ def random_project(rng) -> List[Unit]:
         # a documented method with late-formatted fields naming a sibling, inherited by an override without docstring
         # (the subclass sometimes defines the sibling itself, sometimes the sibling is private or nested deeper)
         if not rst_project and rng.random() < 0.12:
-            a, b = rng.sample(["f", "g", "run", "_p", "x", "y"], 2)
+            a, b = rng.sample(["f", "g", "run", "_p", "x", "y", "__q"], 2)
             tags = rng.sample(["see", "note", "author", "since", "seealso"], rng.choice([1, 2]))
             ref = rng.choice([a, a, "LBase." + a])
             fam = ["class LBase:", "    '''doc of LBase'''", "    def %s(self):" % a, "        '''m %s'''" % a,
@@ -582,7 +636,12 @@ def make_cases(rng, n_random: int, rule_lists: int = 1, scenarios: bool = True) 
             cli, cfg = split_config(rng, random_privacy(rng, units))
             cases.append({"name": "gen%d.%d" % (i, j), "units": units, "privacy": cli, "cfg_privacy": cfg,
                           "opts": random_options(rng)})
-            if rng.random() < 0.04:
+            if rng.random() < 0.04 and not any(u.qname == "pkgvt" for u in units):
+                # the type of a re-exported variable given by a field of the original module's docstring (hunter C11/1);
+                # oracle-only: which page renders the shared field body first is outside the Output model
+                cases[-1]["units"] = list(units) + HUNT_FIELD_TYPE_UNITS("pkgvt")
+                cases[-1]["oracle_only"] = True
+            elif rng.random() < 0.04:
                 # a partial run: --html-subject for a module or a top-level class (often inside something the rules hide)
                 subj = [u.qname for u in units]
                 for u in units:
@@ -856,6 +915,8 @@ def extract_facts(system) -> Dict[str, Any]:
         elif source is None and o.parsed_docstring is not None:
             source = o.parent          # documented by a field of the parent's docstring
         rec["docsource"] = oid(source)
+        # the type comes from an @type field (of the own or of the container's docstring), not from an annotation
+        rec["fieldtype"] = bool(isinstance(o, model.Attribute) and o.annotation is None and getattr(o, "parsed_type", None) is not None)
         rec["xrefs"] = xrefs
         # links in the fields that FieldHandler.format() formats itself, after switch_context(obj) has ended
         rec["laterefs"] = laterefs
@@ -1251,7 +1312,10 @@ def crawl_page(fn: str, text: str) -> Dict[str, Any]:
         for a in A(soup):
             take("other", a)
     return {"page": page, "file": fn, "refs": refs, "anchors": anchors, "links": links, "entries": entries, "texts": texts,
-            "object_page": main is not None, "rstrefs": rstrefs}
+            "object_page": main is not None, "rstrefs": rstrefs,
+            # a docstring shown through the plain-text fallback (ParsedPlaintextDocstring.to_stan) inside the main docstring
+            "plain_fallback": bool(main is not None and main.find(class_="moduleDocstring") is not None
+                                   and main.find(class_="moduleDocstring").find("p", class_="pre") is not None)}
 
 
 def read_inventory(path: str) -> List[Tuple[str, str, str]]:
